@@ -84,9 +84,18 @@ func init() {
 				Run: func(w *fw.W) {
 					w.Each(len(cuts), func(i int) { w.Item(cuts[i], "") })
 				}, Eval: evalC02Traced},
-			{Name: "repetition", Space: "opener x unit in H1^<=2 x closer at 4K (call-depth and work-budget monitors armed); units H1^<=1 (quick) / <=2 (thorough) at 64K; 1 MB (quick) / 8 MB (thorough) for single-byte units", Share: 2,
+			{Name: "repetition", Space: "opener x unit in H1^<=2 x closer at 4K (call-depth and work-budget monitors armed); units H1core^3 and H2^<=2 x 4 openers at 4K; units H1^<=1 (quick) / <=2 (thorough) at 64K; 1 MB (quick) / 8 MB (thorough) for single-byte units", Share: 2,
 				Run: func(w *fw.W) {
 					runRep(w, alpha.Units(alpha.H1, 2), htmlOpeners, htmlClosers, []int{4096})
+					// three-symbol periods (e.g. a complete empty tag) and fragment pairs: a call cycle that adds frames once per period
+					var u3 []string
+					for _, u := range alpha.Units(alpha.H1core, 3) {
+						if len(u) == 3 {
+							u3 = append(u3, u)
+						}
+					}
+					runRep(w, u3, []string{"", "<a ", "<a b=", "</"}, []string{""}, []int{4096})
+					runRep(w, alpha.Units(alpha.H2, 2), []string{"", "<a ", "<a b=", "</"}, []string{""}, []int{4096})
 					runRep(w, alpha.Units(alpha.H1, w.Pick(1, 2)), htmlOpeners, htmlClosers, []int{65536})
 					runRep(w, alpha.Units(alpha.H1, 1), []string{"", "<a ", "<a b=", "<"}, []string{""}, []int{w.Pick(1<<20, 8<<20)})
 				}, Eval: evalC02Public},
